@@ -77,10 +77,13 @@ def _run(v, tier, rng, work):
     open(bad2_src, "w").write("\tMOV\tAX,1\n\tDD\t9223372036854775808\n\tHLT\n")
     bad3_src = os.path.join(work, "bad3.nas")
     open(bad3_src, "w").write("\tMOV\tAX,1\n\tMOV\tAL,[ES:99999999999999999999]\n\tHLT\n")
+    coff_src = os.path.join(work, "okcoff.nas")      # the object writer has its own way of creating the output file
+    open(coff_src, "w").write('[FORMAT "WCOFF"]\n[BITS 32]\n[FILE "okcoff.nas"]\n\tGLOBAL\t_f\n[SECTION .text]\n_f:\n\tMOV\tEAX,1\n\tRET\n')
     os.makedirs(os.path.join(work, "adir"))
+    expect_coff = bytes.fromhex(lib.run_cases([{"id": "x", "srcs": [open(coff_src).read()]}], "c19", jobs=1)["x"]["calls"][0]["out"])
     expect_ok = bytes.fromhex(lib.run_cases([{"id": "x", "srcs": [open(good_src).read()]}], "c19", jobs=1)["x"]["calls"][0]["out"])
     # ---- argument vectors of length 0..4 over path kinds
-    srcs = {"ok": good_src, "missing": os.path.join(work, "nope.nas"), "dir": os.path.join(work, "adir"), "bad": bad_src, "bad2": bad2_src, "bad3": bad3_src}
+    srcs = {"ok": good_src, "okcoff": coff_src, "missing": os.path.join(work, "nope.nas"), "dir": os.path.join(work, "adir"), "bad": bad_src, "bad2": bad2_src, "bad3": bad3_src}
     dsts = {"new": os.path.join(work, "out.bin"), "existing": os.path.join(work, "old.bin"), "nodir": os.path.join(work, "no", "such", "out.bin"),
             "isdir": os.path.join(work, "adir")}
     vectors = [[]] + [[srcs[s]] for s in srcs]
@@ -88,7 +91,7 @@ def _run(v, tier, rng, work):
         for d in dsts:
             vectors.append([srcs[s], dsts[d]])
             vectors.append([srcs[s], dsts[d], os.path.join(work, "list.lst")])
-            if tier == "thorough" or (s, d) in (("ok", "new"), ("bad", "existing"), ("missing", "new")):
+            if tier == "thorough" or (s, d) in (("ok", "new"), ("okcoff", "nodir"), ("bad", "existing"), ("missing", "new")):
                 vectors.append([srcs[s], dsts[d], os.path.join(work, "list.lst"), "extra"])
     for args in vectors:
         for f in (dsts["new"],):
@@ -126,9 +129,9 @@ def _run(v, tier, rng, work):
             else:
                 if rc != 0:
                     v.violation("successful assembly must exit 0 (got %d)" % rc, w)
-                if after != expect_ok:
+                if after != (expect_coff if skind == "okcoff" else expect_ok):
                     v.violation("output file does not hold exactly the assembled bytes (pre-existing content: %s)" % dkind,
-                                dict(w, file_hex=(after or b"")[:64].hex(), file_len=len(after or b""), expected_hex=expect_ok.hex()))
+                                dict(w, file_hex=(after or b"")[:64].hex(), file_len=len(after or b""), expected_hex=(expect_coff if skind == "okcoff" else expect_ok).hex()))
     # ---- programs through the CLI (fresh destination and longer pre-existing destination) versus the in-process API
     n = 40 if tier == "quick" else 400
     progs = []
